@@ -444,6 +444,264 @@ def r4(ctx):
               "close only if (not is_async or has_terminate); terminate = is_async and has_terminate", ff.loc)
 
 
+# ---------------------------------------------------------------------- C29-R5 (handler width under cancellation)
+POOL_IMPL = "pool/impl.py"
+CONC = "util/concurrency.py"
+# modules whose try/except blocks keep the pool's accounting (overflow counter, checked-out records)
+ACCOUNTING_MODULES = (POOL, POOL_IMPL)
+_NOT_COMPENSATION = {"isinstance", "issubclass", "len", "bool", "str", "repr", "id", "type"}
+
+
+def _handler_is_base_wide(h: ast.ExceptHandler) -> bool:
+    """bare `except:` / `except BaseException` / a tuple naming BaseException: the only widths that see
+    asyncio.CancelledError, greenlet.GreenletExit, KeyboardInterrupt, GeneratorExit."""
+    if h.type is None:
+        return True
+    elts = h.type.elts if isinstance(h.type, ast.Tuple) else [h.type]
+    return any((dotted(e) or "").split(".")[-1] == "BaseException" for e in elts)
+
+
+def _own_level(body):
+    """nodes of a handler body that run for the handler's own exception (bodies of nested handlers and
+    nested scopes excluded: a bare `raise` there re-raises something else)."""
+    stack = list(body)
+    while stack:
+        n = stack.pop()
+        yield n
+        if isinstance(n, (ast.FunctionDef, ast.AsyncFunctionDef, ast.Lambda, ast.ClassDef)):
+            continue
+        for ch in ast.iter_child_nodes(n):
+            if isinstance(ch, ast.ExceptHandler):
+                continue
+            stack.append(ch)
+
+
+def _handler_profile(h: ast.ExceptHandler):
+    """(re-raises the caught exception, [compensation callee names]) of handler `h`."""
+    from ._helpers_rules_c import is_logging_call, is_safe_reraise
+    reraises = False
+    comp = []
+    for n in _own_level(h.body):
+        if isinstance(n, ast.Raise) and n.exc is None:
+            reraises = True
+        elif isinstance(n, ast.Raise) and h.name and isinstance(n.exc, ast.Name) and n.exc.id == h.name:
+            reraises = True
+        elif is_safe_reraise(n):
+            reraises = True
+        elif isinstance(n, ast.Call):
+            nm = call_name(n) or unparse(n.func)
+            if nm.split(".")[-1] == "safe_reraise" or is_logging_call(nm) or nm in _NOT_COMPENSATION:
+                continue
+            comp.append(nm)
+    return reraises, comp
+
+
+def _tries_of(fnode):
+    return [n for n in walk_local(fnode) if isinstance(n, ast.Try)]
+
+
+@R.rule("C29-R5", floor=6, template="T-GUARD",
+        desc="cancellation width: in the pool's accounting code (pool/base.py, pool/impl.py) every handler that "
+             "undoes something and re-raises the caught exception is as wide as BaseException (bare / "
+             "BaseException), or a BaseException-wide sibling handler of the same try performs the same undo; "
+             "greenlet_spawn forwards every BaseException raised by the awaited driver call into the greenlet")
+def r5(ctx):
+    ix = ctx.index
+    seen_keys = {}
+    for rel in ACCOUNTING_MODULES:
+        m = ix.module(rel)
+        for f in sorted(ix.all_functions(m), key=lambda x: x.node.lineno):
+            if f.type_only:
+                continue
+            for t in sorted(_tries_of(f.node), key=lambda x: x.lineno):
+                profiles = [(h,) + _handler_profile(h) for h in t.handlers]
+                for i, (h, reraises, comp) in enumerate(profiles):
+                    if not (reraises and comp):
+                        continue  # swallows / translates / only logs: not an undo-and-propagate handler
+                    ctx.functions_analysed.add(f.key)
+                    shorts = sorted({c.split(".")[-1] for c in comp})
+                    base = f"{f.key}:undo-and-reraise[{'+'.join(shorts)}]"
+                    k = seen_keys.get(base, 0)
+                    seen_keys[base] = k + 1
+                    key = base if k == 0 else f"{base}#{k + 1}"
+                    wide = _handler_is_base_wide(h)
+                    covered_by = None
+                    if not wide:
+                        for h2, rr2, comp2 in profiles[i + 1:]:
+                            if _handler_is_base_wide(h2) and rr2 and {c.split(".")[-1] for c in comp2} >= set(shorts):
+                                covered_by = h2
+                    width = "bare except" if h.type is None else f"except {unparse(h.type)}"
+                    if wide:
+                        ctx.ok(key, f"{width}: also runs for CancelledError / GreenletExit / KeyboardInterrupt")
+                    elif covered_by is not None:
+                        ctx.ok(key, f"{width}, and the BaseException-wide sibling handler at line {covered_by.lineno} performs the same undo")
+                    else:
+                        ctx.violation(
+                            key,
+                            f"`{width}` in {f.qualname} undoes ({', '.join(shorts)}) and re-raises, but it is narrower than "
+                            "BaseException: asyncio.CancelledError (task cancelled / timed out while the driver call inside "
+                            "the try block is awaiting), greenlet.GreenletExit and KeyboardInterrupt are not `Exception`s, so "
+                            f"the undo is skipped on cancellation and the pool's accounting ({', '.join(shorts)}) leaks",
+                            f"{m.path}:{h.lineno}")
+    # the bridge that delivers a cancellation to the code above
+    gs = ctx.func(f"{CONC}::greenlet_spawn")
+    ctx.functions_analysed.add(gs.key)
+    pm = gs.module.parents()
+    awaits = [n for n in walk_local(gs.node) if isinstance(n, ast.Await)]
+    ctx.require(awaits, "greenlet_spawn awaits nothing (unknown idiom)")
+    from ..astutil import enclosing_try
+    bad = []
+    for aw in awaits:
+        ok = False
+        for t, part in enclosing_try(pm, aw):
+            if part != "body":
+                continue
+            for h in t.handlers:
+                if _handler_is_base_wide(h) and any((call_name(c) or "").split(".")[-1] == "throw" for c in calls_in(ast.Module(body=h.body, type_ignores=[]))):
+                    ok = True
+        if not ok:
+            bad.append(aw.lineno)
+    ctx.check(not bad, gs.key + ":await-forwards-base-exception",
+              f"the await at line {bad} is not inside a try whose BaseException-wide handler throws the exception into the "
+              "greenlet: a cancellation of the task is not seen by the sync code (no rollback, no checkin; the greenlet is abandoned)",
+              "every await: except BaseException -> context.throw(...)", gs.loc)
+
+
+# ---------------------------------------------------------------------- C29-R6 (filtered views inherit the parent's filters)
+RES = "engine/result.py"
+
+
+def _self_writes(ix, cls, stop_names=("__init__",)):
+    """{attr: [method keys]} assigned as `self.attr = ...` by a non-constructor method of `cls` or its bases."""
+    from ..astutil import attr_stores
+    out = {}
+    for k in ix.mro(cls):
+        for name, f in k.methods.items():
+            if name in stop_names or f.type_only:
+                continue
+            for d, node, st in attr_stores(f.node):
+                if d.startswith("self.") and d.count(".") == 1 and not isinstance(st, ast.Delete):
+                    out.setdefault(d[5:], []).append(f.key)
+    return out
+
+
+def _ctor_attr_sources(init):
+    """{attr: {constructor parameters it may be read from}} - `p.attr` directly or through a local alias of
+    parameters (`src = a if a is not None else b`, `src = a or b`, `src = p`)."""
+    params = [p for p in init.params if p != "self"]
+    binds = {}
+    for n, v, st in name_stores(init.node):
+        if v is not None:
+            binds.setdefault(n, []).append(v)
+
+    def origin(name, depth=0):
+        if name in params and name not in binds:
+            return {name}
+        out = {name} if name in params else set()
+        if depth > 3:
+            return out
+        for v in binds.get(name, []):
+            parts = [v]
+            if isinstance(v, ast.IfExp):
+                parts = [v.body, v.orelse]
+            elif isinstance(v, ast.BoolOp):
+                parts = v.values
+            for e in parts:
+                if isinstance(e, ast.Name):
+                    out |= origin(e.id, depth + 1)
+        return out
+
+    res = {}
+    for n in ast.walk(init.node):
+        if isinstance(n, ast.Attribute) and isinstance(n.value, ast.Name) and isinstance(n.ctx, ast.Load) and n.value.id != "self":
+            src = origin(n.value.id)
+            if src:
+                res.setdefault(n.attr, set()).update(src)
+    return res
+
+
+def _bind_call(call, init):
+    params = [p for p in init.params if p != "self"]
+    out = {}
+    for i, a in enumerate(call.args):
+        if isinstance(a, ast.Starred) or i >= len(params):
+            break
+        out[params[i]] = a
+    for k in call.keywords:
+        if k.arg is not None:
+            out[k.arg] = k.value
+    return out
+
+
+@R.rule("C29-R6", floor=4, template="T-SIBLING/T-FLOW",
+        desc="sync and async result objects agree on what a filtered view (scalars()/mappings()) is built from: the "
+             "state a view constructor copies from its result argument (_unique_filter_state, _metadata, ...) and that "
+             "generative modifiers of the parent (unique(), columns(), ...) write on the parent itself must reach the "
+             "view - the view is constructed from `self`, or the attribute is copied from self onto the new view")
+def r6(ctx):
+    ix = ctx.index
+    filt = ix.cls(f"{RES}::FilterResult")
+    n_sites = 0
+    for rel in (RES, ARES):
+        m = ix.module(rel)
+        views = {c.name: c for c in ix._all_classes(m) if c is not filt and filt in ix.mro(c)}
+        for cls in sorted(ix._all_classes(m), key=lambda c: c.node.lineno):
+            writes = None
+            for name, f in sorted(cls.methods.items()):
+                if f.type_only or name == "__init__":
+                    continue
+                for c in calls_in(f.node):
+                    v = views.get(call_name(c) or "")
+                    if v is None:
+                        continue
+                    ctx.require(c.args or c.keywords, f"{f.key}: {v.name}() constructed without a result")
+                    init = ix.resolve_method(v, "__init__")
+                    ctx.require(init is not None and len(init.params) >= 2, f"{v.key}: no constructor taking a result")
+                    ctx.functions_analysed.add(f.key)
+                    ctx.functions_analysed.add(init.key)
+                    if writes is None:
+                        writes = _self_writes(ix, cls)
+                    sources = _ctor_attr_sources(init)
+                    bound_args = _bind_call(c, init)
+                    carried = sorted(a for a in sources if a in writes and a != "_real_result")
+                    n_sites += 1
+                    key = f"{f.key}:view-source[{v.name}]"
+                    arg = c.args[0] if c.args else c.keywords[0].value
+
+                    def from_self(a):
+                        given = [bound_args[p] for p in sources[a] if p in bound_args
+                                 and not (isinstance(bound_args[p], ast.Constant) and bound_args[p].value is None)]
+                        return any(isinstance(x, ast.Name) and x.id == "self" for x in given)
+                    if all(from_self(a) for a in carried):
+                        ctx.ok(key, f"{v.name}({', '.join(unparse(a) for a in c.args)}{', ...' if c.keywords else ''}): the view copies "
+                                    f"{carried} from the object the modifiers write (self)")
+                        continue
+                    # constructed from another object: every carried attribute must be copied from self onto the view
+                    bound = [n for n, val, st in name_stores(f.node) if val is c]
+                    fixed = {a for a in carried if from_self(a)}
+                    if bound:
+                        from ..astutil import attr_stores
+                        for d, node, st in attr_stores(f.node):
+                            if d.startswith(bound[0] + ".") and isinstance(st, ast.Assign) and any(
+                                    isinstance(x, ast.Attribute) and isinstance(x.value, ast.Name) and x.value.id == "self"
+                                    and x.attr == d.split(".", 1)[1] for x in ast.walk(st.value)):
+                                fixed.add(d.split(".", 1)[1])
+                    lost = [a for a in carried if a not in fixed]
+                    if not lost:
+                        ctx.ok(key, f"{v.name}({unparse(arg)}, ...): nothing the parent's modifiers write is read from the argument"
+                               if not carried else f"{v.name}({unparse(arg)}, ...) and {carried} copied from self")
+                        continue
+                    who = "; ".join(f"{a} is written by {', '.join(sorted({k.split('::')[1] for k in writes[a]})[:3])}" for a in lost)
+                    ctx.violation(
+                        key,
+                        f"{cls.name}.{name}() builds {v.name} from `{unparse(arg)}`, but {v.name}.__init__ copies {lost} from "
+                        f"that argument while the parent's modifiers set them on the {cls.name} itself ({who}): filters applied "
+                        f"before {name}() (e.g. .unique(), .columns()) are silently dropped - the sync API, which passes "
+                        "`self`, keeps them",
+                        f"{m.path}:{c.lineno}")
+    ctx.require(n_sites >= 4, f"only {n_sites} filtered-view construction sites found")
+
+
 # ---------------------------------------------------------------------- self-test battery
 R.mutant("async-commit-runs-rollback", AENG,
          sub("        await greenlet_spawn(self._proxied.commit)\n\n    async def rollback(self) -> None:\n        \"\"\"Roll back the transaction that is currently in progress.",
@@ -487,3 +745,32 @@ R.mutant("benign-rename-gc-flag", POOL, sub("is_gc_cleanup", "gc_cleanup", count
 R.mutant("benign-async-commit-local-alias", AENG,
          sub("        await greenlet_spawn(self._proxied.commit)\n\n    async def rollback(self) -> None:\n        \"\"\"Roll back the transaction that is currently in progress.",
              "        conn = self._proxied\n        await greenlet_spawn(conn.commit)\n\n    async def rollback(self) -> None:\n        \"\"\"Roll back the transaction that is currently in progress."), None)
+# --- seeds (str-m) and their neighbourhood
+_KW = "        return await greenlet_spawn(\n            self._only_one_row,\n            raise_for_second_row=%s,\n            raise_for_none=%s,\n            scalar=%s,\n        )"
+R.mutant("seed2-async-one-or-none-keyword-flags-no-second-row-check", ARES,
+         sub("        return await greenlet_spawn(self._only_one_row, True, False, False)", _KW % ("False", "False", "False"), count=3), "C29-R3")
+R.mutant("benign-async-one-or-none-keyword-flags", ARES,
+         sub("        return await greenlet_spawn(self._only_one_row, True, False, False)", _KW % ("True", "False", "False"), count=3), None)
+_UNDO = "            except:\n                with util.safe_reraise():\n                    self._dec_overflow()\n                raise\n"
+R.mutant("seed1-do-get-undo-handler-narrowed-to-exception", POOL_IMPL,
+         sub(_UNDO, _UNDO.replace("except:", "except Exception:")), "C29-R5")
+R.mutant("checkout-checkin-failed-handler-narrowed", POOL,
+         sub("        except BaseException as err:\n            with util.safe_reraise():\n                rec._checkin_failed(err, _fairy_was_created=False)",
+             "        except Exception as err:\n            with util.safe_reraise():\n                rec._checkin_failed(err, _fairy_was_created=False)"), "C29-R5")
+R.mutant("greenlet-spawn-forwards-only-exception", CONC,
+         sub("        except BaseException:\n", "        except Exception:\n"), "C29-R5")
+R.mutant("benign-do-get-undo-handler-spelled-baseexception", POOL_IMPL,
+         sub(_UNDO, _UNDO.replace("except:", "except BaseException:")), None)
+R.mutant("benign-do-get-undo-handler-split", POOL_IMPL,
+         sub(_UNDO, "            except Exception:\n                self._dec_overflow()\n                raise\n            except BaseException:\n                with util.safe_reraise():\n                    self._dec_overflow()\n                raise\n"), None)
+R.mutant("benign-do-get-narrow-log-and-reraise", POOL_IMPL,
+         sub(_UNDO, "            except exc.TimeoutError:\n                self.logger.debug(\"connect timed out\")\n                raise\n" + _UNDO), None)
+R.mutant("sync-scalars-view-over-other-object", RES,
+         sub("        return ScalarResult(self, index)\n", "        return ScalarResult(self.freeze()(), index)\n"), "C29-R6")
+R.mutant("sync-mappings-view-over-other-object", RES,
+         sub("        return MappingResult(self)\n", "        return MappingResult(self.freeze()())\n"), "C29-R6")
+R.mutant("benign-sync-scalars-view-bound-to-local", RES,
+         sub("        return ScalarResult(self, index)\n", "        view = ScalarResult(self, index)\n        return view\n"), None)
+R.mutant("benign-sync-mappings-view-copies-state-afterwards", RES,
+         sub("        return MappingResult(self)\n",
+             "        view = MappingResult(self.freeze()())\n        view._unique_filter_state = self._unique_filter_state\n        view._metadata = self._metadata\n        return view\n"), None)
